@@ -136,7 +136,7 @@ CLAIMED['C16'] = {
     'text': 'Relational wiring proof: the source loops of cmd_discover and cmd_explain satisfy the same loop invariant, over the same uninterpreted terms (included sources, '
             'parse calls with the configured rules / transforms / supplemental data), as cmd_run; _check_merchant_migration (no migration) returns the configured get_all_rules '
             'call; the Unknown filter of discover is a syntactic clause. Command-level agreement (merchant, category, subcategory, rule, counts) is exercised by the labelled '
-            'bounded oracle; explain_description (raw description with amount) is decided by the bounded oracle only; its three deviations found there were repaired in ed5cf4c.',
+            'bounded oracle; explain_description (raw description with amount) and normalize_merchant are proved to ask the loaded engine the same question (same transformed description, amount, supplemental rows) and to report its merchant / category / subcategory, or Unknown with the name extracted from the transformed description; four deviations of explain found by the oracle were repaired in ed5cf4c and 26d1609.',
     'level_note': _BASE_NOTE + ' Callees are uninterpreted; argparse and process start-up are outside the verified text (A10).',
     'technique': 'contract-based deductive verification (relational loop invariants shared with cmd_run, z3) + bounded oracle comparing up / discover / explain on generated budgets',
 }
